@@ -3602,7 +3602,10 @@ fn host_is_local(host: &Host<&str>) -> bool {
 
 /// Ensure that the redirect URI is a loopback/localhost address
 fn check_is_loopback(redirect_uri: &Url) -> bool {
-    redirect_uri.host().is_some_and(|host| {
+    // RFC 8252 section 7.3: a loopback redirect is an http(s) URI. Any other scheme with a
+    // loopback host (ftp://127.0.0.1/, myapp://localhost/) is not one.
+    matches!(redirect_uri.scheme(), "http" | "https")
+        && redirect_uri.host().is_some_and(|host| {
         // Check if the host is a loopback/localhost address.
         host_is_local(&host)
     })
